@@ -22,6 +22,23 @@ pub mod log;
 
 mod json_ser;
 
+/// Verification hook (only with `--cfg zlink_verif`): exposes the private slice serializer.
+#[cfg(zlink_verif)]
+#[doc(hidden)]
+pub mod __verif {
+    /// Serializes `value` into `buf`: `Ok(len)`, `Err(0)` = buffer too small, `Err(1)` = key must
+    /// be a string.
+    pub fn to_slice<T: serde::Serialize + ?Sized>(
+        value: &T,
+        buf: &mut [u8],
+    ) -> core::result::Result<usize, u8> {
+        crate::json_ser::to_slice(value, buf).map_err(|e| match e {
+            crate::json_ser::Error::BufferTooSmall => 0,
+            crate::json_ser::Error::KeyMustBeAString => 1,
+        })
+    }
+}
+
 pub mod connection;
 pub use connection::Connection;
 mod error;
